@@ -205,7 +205,11 @@ Definition all_comparable (l : list val) : bool :=
 Definition all_nums (l : list val) : bool := forallb is_num l.
 
 Definition str_of (v : val) : option (list N) := match v with VStr s => Some s | _ => None end.
-Definition is_space (c : N) : bool := (c =? 32)%N || (c =? 10)%N || (c =? 9)%N || (c =? 13)%N.
+(* whitespace = Unicode White_Space (what Rust's char::is_whitespace and "runs of whitespace" mean):
+   U+0009..000D, 0020, 0085, 00A0, 1680, 2000..200A, 2028, 2029, 202F, 205F, 3000 *)
+Definition is_space (c : N) : bool :=
+  ((9 <=? c) && (c <=? 13) || (c =? 32) || (c =? 133) || (c =? 160) || (c =? 5760) ||
+   (8192 <=? c) && (c <=? 8202) || (c =? 8232) || (c =? 8233) || (c =? 8239) || (c =? 8287) || (c =? 12288))%N.
 
 Inductive call :=
 | CMap (f : fn1) | CFilter (f : fn1) | CReject (f : fn1) | CPartition (f : fn1)
@@ -226,7 +230,7 @@ Inductive call :=
 | CWindow (n : nat) | CPrefixes | CSuffixes | CFrequencies
 | CConcat | CPrepend (v : val) | CAppend (v : val) | CPair (a b : val) | CReplicate (v : val) (n : nat)
 | CCartesian | CRepeatConcat (n : nat) | CPower (n : nat)
-| CJoin (sep : list N) | CSplit (sep : list N) | CWords | CLines
+| CJoin (sep : list N) | CSplit (sep : list N) | CWords | CLines | CUnwords | CUnlines
 | CPermutations | CCombinations (n : nat) | CSubsequences.
 
 Definition vnat (n : nat) : val := VInt (Z.of_nat n).
@@ -332,6 +336,8 @@ Definition run (c : call) (args : list val) : option val :=
   | CSplit sep => with_str args (fun s => option_map (fun ps => vlist (map VStr ps)) (sl_split N.eqb sep s))
   | CWords => with_str args (fun s => Some (vlist (map VStr (sl_words is_space s))))
   | CLines => with_str args (fun s => Some (vlist (map VStr (sl_lines N.eqb 10%N s))))
+  | CUnwords => with1 args (fun x l => do ss <- all_some (map str_of l); Some (VStr (sl_unwords 32%N ss)))
+  | CUnlines => with1 args (fun x l => do ss <- all_some (map str_of l); Some (VStr (sl_unlines 10%N ss)))
   | CPermutations => with1 args (fun x l => Some (VSeq SStream (map vlist (sl_permutations l))))
   | CCombinations n => with1 args (fun x l => Some (VSeq SStream (map vlist (sl_combinations l n))))
   | CSubsequences => with1 args (fun x l => Some (VSeq SStream (map vlist (sl_subsequences l))))
